@@ -104,6 +104,7 @@ PickInit(a, b, sol, g) ==
                           ELSE IF j \in sys.solid THEN sol
                           ELSE InitSeq[((a * sys.ss[j] + b + sh) % Len(InitSeq)) + 1]]
        IN  /\ ElementsPresent(pat(0)) = TRUE     \* (compared with TRUE: evaluated, not enumerated)
+           /\ ElementsPresent(pat(g)) = TRUE     \* the guess doubles as a second problem for a re-used solver
            /\ init' = pat(0)
            /\ guess' = pat(g)
     /\ phase' = "posed"
@@ -300,7 +301,9 @@ Adopt ==
 
 \* the numerical solver returns vn for the system selected by cnd (several NumSys may be chained)
 SolveWith(cnd, vn, ok) ==
-    /\ (phase = "solve" \/ (phase = "eval" /\ solved /\ nconds = <<>>))
+    \* ... or, for a system without phase transfer, directly (neqsys type "static_conditions": no
+    \* conditional run is ever begun)
+    /\ (phase = "solve" \/ (phase = "eval" /\ solved /\ nconds = <<>>) \/ (phase = "idle" /\ Len(PT) = 0))
     /\ iter < maxiter
     /\ cnd = conds
     /\ x' = vn /\ succ' = ok /\ solved' = TRUE /\ nconds' = <<>>
